@@ -12,7 +12,8 @@ import (
 //	nodb-same-second   no database: mint, use, restart inside the same wall-clock second, replay
 //	nodb-later-second  same, the restart falls into a later second (the documented behaviour)
 //	db-same-second     bbolt: same-second restart, replay
-//	respell            one token presented as tok, tok+"\n", " "+tok, tok+"=" (with / without jti)
+//	respell            (D12b, fixed by c4bb6a3: must now be authorized once) one token presented as tok, tok+"\n", " "+tok, tok+"=", twice in JSON serialization with an unprotected
+//	                   header, and with the ECDSA signature (r, n-s) (with / without jti)
 type Defect struct {
 	Kind string
 	JTI  bool
@@ -53,6 +54,43 @@ func runDefect(d *Defect) (string, string, string) {
 		// the restart never fell where the case needs it (slow machine): inconclusive, not a failure;
 		// D12a is also proved as a refutation (no_db_same_second_replay) and printed from the finding list
 		return in, "ok", "ok"
+	case "renewtok-acme", "renewtok-k8s":
+		// (D12d, fixed by 42a611b: must be authorized once) a renew token (POST /1.0/renew without client certificate) of a
+		// certificate issued by an ACME / K8sSA provisioner, presented three times to Authority.AuthorizeRenewToken
+		e := newEnv(true, false, nil)
+		defer e.close()
+		m := e.mintTok(&TokSpec{Prov: "renewtok", JTI: "r", Issuer: d.Kind[len("renewtok-"):]}, map[string]string{})
+		n := 0
+		for i := 0; i < 3; i++ {
+			if _, err := e.ca.Auth.AuthorizeRenewToken(methodCtx(e.ca.Auth, "sign", false), m.str); err == nil {
+				n++
+			}
+		}
+		if n > 1 {
+			return in, fmt.Sprintf("VIOLATION one-renew-token-authorized=%d", n), "ok"
+		}
+		if n == 0 {
+			return in, "first-use-refused", "ok"
+		}
+		return in, "ok", "ok"
+	case "respell-gcp":
+		// GCP with disableTrustOnFirstUse: GetTokenID itself returns the hash of the presented string
+		e := newEnv(true, false, nil)
+		defer e.close()
+		m := e.mintTok(&TokSpec{Prov: "gcpr", JTI: "r"}, map[string]string{})
+		n := 0
+		for i := 0; i < 7; i++ {
+			if _, err := e.ca.Auth.Authorize(methodCtx(e.ca.Auth, "sign", false), spell(m.str, i)); err == nil {
+				n++
+			}
+		}
+		if n > 1 {
+			return in, fmt.Sprintf("VIOLATION one-token-authorized=%d", n), "ok"
+		}
+		if n == 0 {
+			return in, "first-use-refused", "ok"
+		}
+		return in, "ok", "ok"
 	case "respell":
 		e := newEnv(true, false, nil)
 		defer e.close()
@@ -62,7 +100,7 @@ func runDefect(d *Defect) (string, string, string) {
 		}
 		tok := must(e.ca.Token(fixture.TokenOpts{Subject: "d.example.com", JTI: jti}))
 		n := 0
-		for i := 0; i < 4; i++ {
+		for i := 0; i < 7; i++ {
 			if _, err := e.ca.Auth.Authorize(methodCtx(e.ca.Auth, "sign", false), spell(tok, i)); err == nil {
 				n++
 			}
